@@ -7,6 +7,10 @@ from adcgen.tensor_names import tensor_names as tn
 
 from .. import adapter, build, oracle
 from ..runner import guarded
+from functools import partial
+
+# derivations are long single calls: their own time limit
+guarded = partial(guarded, call_timeout=900)      # DERIVATION
 from .c03 import CLS, isr_models
 
 
